@@ -3,12 +3,15 @@ a violation of the property, and the theorems that must be present in its Lean f
 
 
 def hist(profile, cases, tier="quick", extra=None, timeout=1500):
-    return {"name": f"hist:{profile}:{cases}",
+    return {"name": f"hist:{profile}:{cases}" + (":choices" if extra and "--choices" in extra else ""),
             "args": ["hist", "--profile", profile, "--tier", tier, "--seed", "{seed}", "--cases", str(cases)] + (extra or []),
             "timeout": timeout}
 
 
 T1 = ["--threads", "1"]
+# also record the items drawn by every split search: the driver then checks a sample of the recorded normals
+# against the model's `Split.createSplit` (200 soft-float two-means iterations each: keep the case counts small)
+CH = ["--threads", "1", "--choices"]
 import os as _os
 _FX = _os.path.join(_os.path.dirname(_os.path.dirname(_os.path.abspath(__file__))), "fixtures")
 FIXTURES = [{"name": "fixture:" + m, "args": ["fixture-load", _os.path.join(_FX, f"golden-{m}.fixture")]}
@@ -27,8 +30,8 @@ SCENARIOS = {
         "modules": ["C04", "C04Build", "Unconditional", "Reachable"],
         "theorems": ["C04_selfLookup_reachable_given_lengths", "C04_selfLookup_reachable_bq", "C04_stored_length_reachable", "C04_routed_all_histories", "C04_routed", "C04_checker", "C04_selfLookup", "C04_selfLookup_symm", "C04_selfLookup_by_item", "C04_routed_meaning", "C04_readerFirst_spec",
                      "C04_side_eq_readerFirst"],
-        "quick": [hist("c04", 50, extra=T1)],
-        "thorough": [hist("c04", 1200, "thorough", extra=T1), hist("c04", 300, "thorough")],
+        "quick": [hist("c04", 50, extra=T1), hist("c04", 8, extra=CH)],
+        "thorough": [hist("c04", 1200, "thorough", extra=T1), hist("c04", 300, "thorough"), hist("c04", 80, "thorough", extra=CH)],
         "counts": ["C04"],
     },
     "C05": {
@@ -170,8 +173,9 @@ SCENARIOS = {
         "modules": ["C20", "Unconditional", "Reachable"],
         "theorems": ["C20_degenerate_forest", "C20_side_total", "C20_sideSplit_total", "C20_search_total", "C20_search_wellformed", "C20_order_total",
                      "C20_readback_any_bits", "C20_empty_side_random", "C20_build_fuel"],
-        "quick": [hist("c20", 84, extra=T1, timeout=1500)],
-        "thorough": [hist("c20", 420, "thorough", extra=T1, timeout=3400), hist("c20", 84, "thorough", timeout=3400)],
+        "quick": [hist("c20", 84, extra=T1, timeout=1500), hist("c20", 7, extra=CH, timeout=1500)],
+        "thorough": [hist("c20", 420, "thorough", extra=T1, timeout=3400), hist("c20", 84, "thorough", timeout=3400),
+                     hist("c20", 42, "thorough", extra=CH, timeout=3400)],
         "counts": ["C20", "C01", "C03", "C05"],
         "assumptions": ["bounded build time on degenerate data is observed (poll limit), termination of the re-split loop being probabilistic"],
     },
